@@ -98,5 +98,5 @@ def run(run):
     run.cov["distinct_nontrivial"] = nontrivial
     run.assumptions += ["the harness maps a JSON partial record to PartialDate/PartialTime field by field (ops_partial.rs) and projects results through public getters; "
                         "the hidden reference day of a year-month is read from to_ixdtf_string(DisplayCalendar::Always)",
-                        "ISO calendar only; era / eraYear never supplied; ZonedDateTime partials in fixed-offset zones (+00:00 in the bounded instance; +05:30, -08:00, +14:00 in sessions)",
+                        "ISO calendar, plus gregory receivers of PlainDate.with for era / eraYear designations and for day and month clamping outside ISO; ZonedDateTime partials in fixed-offset zones (+00:00 in the bounded instance; +05:30, -08:00, +14:00 in sessions)",
                         "a record that lacks a required field must be a TypeError even if a supplied field is also out of range (Temporal's order of checks)"]
